@@ -162,6 +162,44 @@ pub fn gen_app(g: &mut Gen, depth: usize, params_used: usize, fangs_ok: bool) ->
     if items.is_empty() && (depth == 0 || n_routes > 0) {
         items.push(Item::Routes { path: "/".into(), methods: gen_methods(g, params_used, fangs_ok) });
     }
+    if relax && t::chance(2, 3) {
+        // a route of the enclosing application that runs *through* a route of a mounted one and goes on below it, the
+        // mounted route having routes of its own below it as well: when the two trees are united, a node that carries a
+        // handler and a subtree meets a node that is already there
+        let pick: Option<(usize, String)> = items.iter().enumerate().find_map(|(i, it)| match it {
+            Item::Mount { prefix, app } if !prefix.contains(':') => app.items.iter().find_map(|ci| match ci {
+                Item::Routes { path, .. } if path != "/" && !path.contains(':') => Some((i, path.clone())),
+                _ => None,
+            }),
+            _ => None,
+        });
+        if let Some((mi, inner)) = pick {
+            let with_param = params_used == 0 && t::chance(2, 3);
+            let below = if with_param { format!(":{}", t::pick(&["id", "name", "p"])) } else { t::pick(&STATICS).to_string() };
+            let deeper = if with_param && t::chance(1, 2) { format!(":{}", t::pick(&["id", "name", "p"])) } else { below.clone() };
+            let tail = t::pick(&STATICS).to_string();
+            let mut add_parent: Option<String> = None;
+            if let Item::Mount { prefix, app } = &mut items[mi] {
+                let child_route = format!("{inner}/{below}");
+                let have: Vec<String> = app.items.iter().filter_map(|ci| if let Item::Routes { path, .. } = ci { Some(unify(path)) } else { None }).collect();
+                let child_mounts_there = app.items.iter().any(|ci| matches!(ci, Item::Mount { .. }));
+                if !child_mounts_there {
+                    if !have.contains(&unify(&child_route)) {
+                        let m = gen_methods(g, if with_param { 1 } else { 0 }, fangs_ok);
+                        app.items.push(Item::Routes { path: child_route, methods: m });
+                    }
+                    add_parent = Some(format!("{prefix}{inner}/{deeper}/{tail}"));
+                }
+            }
+            if let Some(pr) = add_parent {
+                if !patterns.contains(&unify(&pr)) {
+                    patterns.push(unify(&pr));
+                    let m = gen_methods(g, if with_param { 1 } else { 0 }, fangs_ok);
+                    items.push(Item::Routes { path: pr, methods: m });
+                }
+            }
+        }
+    }
     if relax {
         // one handler per (route, method): where the enclosing application collides with a mounted one, it gives way
         let mut taken: Vec<(Vec<Seg>, String)> = Vec::new();
